@@ -743,10 +743,19 @@ pub fn apply_clock_event(ev: &Ev, clk: &SharedClock, stats: &mut Stats, log: &mu
             log.write_u64(*nanos as u64);
         }
         Ev::Offset { secs } => {
+            c.offset_switch = None;
             c.offset = (*secs).clamp(-86_000, 86_000);
             c.pending_fault |= 1 << F_OFFSET;
             stats.fault_configured[F_OFFSET] += 1;
             log.write(b"off");
+            log.write_i64(*secs as i64);
+        }
+        Ev::OffsetAfter { reads, secs } => {
+            c.offset_switch = Some(((*reads).max(1), (*secs).clamp(-86_000, 86_000)));
+            c.pending_fault |= 1 << F_OFFSET;
+            stats.fault_configured[F_OFFSET] += 1;
+            log.write(b"offa");
+            log.write_u64(*reads as u64);
             log.write_i64(*secs as i64);
         }
         Ev::Leap { reads } => {
